@@ -507,6 +507,20 @@ def r3(ck, prog, run):
             pname = fi.params()[1][0]
             ck.same("R3", fi.where, f"{qn.split('.')[1]}: checked value", "the times that are checked are the times that are evaluated (the method's own argument)",
                     len(arg) == 1 and norm(arg[0]) == pname, found=norm(arg[0]) if arg else None)
+    # inside _get_index_and_dt itself: the refusal precedes the row lookup (an index one past the last row, which is what a time after
+    # the last span yields, must never be used: it would escape as IndexError instead of the promised ValueError)
+    gid = prog.func("PhasePredictor._get_index_and_dt")
+    cfg = CFG(gid.node)
+    emap = enclosing_stmt_map(gid.node)
+    g = [(n, br, t, r) for n, br, t, r in cfg.guards() if raised_exception_name(r) == "ValueError"]
+    lookups = [c for c in ast.walk(gid.node) if (isinstance(c, ast.Call) and norm(c.func).endswith("searchsorted"))
+               or (isinstance(c, ast.Subscript) and isinstance(c.value, ast.Subscript) and norm(c.value.value) == "self" and isinstance(c.slice, ast.Name))]
+    okg = False
+    if g and lookups:
+        passing = cfg.branch[(g[0][0], g[0][1])]
+        okg = all(cfg.dominates(passing, cfg.node(emap[id(c)])) for c in lookups if id(emap.get(id(c))) in cfg.node_of)
+    ck.same("R3", gid.where, "range guard of _get_index_and_dt", "times outside every interval are refused before the entry index is computed or used to look up a row",
+            bool(okg), found=f"guards: {[norm(x[2])[:40] for x in g]}, lookups: {[norm(c)[:40] for c in lookups]}", nontrivial=True)
     pp = prog.func("PhasePredictor.phasepol")
     cfg = CFG(pp.node)
     g = [(n, br, t, r) for n, br, t, r in cfg.guards() if "isscalar" in norm(t) and raised_exception_name(r) == "ValueError"]
